@@ -4,6 +4,7 @@ import (
 	"fmt"
 	"go/token"
 	"go/types"
+	"os"
 	"strings"
 
 	"golang.org/x/tools/go/ssa"
@@ -1322,7 +1323,61 @@ func indexInBounds(fn *ssa.Function, fs FactSet, x, index ssa.Value) (bool, stri
 
 // sliceInBounds recognises bounds derived from strings.Index results on the sliced string.
 func sliceInBounds(fn *ssa.Function, fs FactSet, s *ssa.Slice) (bool, string) {
-	ok, why := sliceBoundsJudge(fn, fs, s.X, s.Low, s.High)
+	ok, why := sliceInBoundsX(fn, fs, s, s.X)
+	if ok {
+		return ok, why
+	}
+	// the sliced string itself is chosen by a branch (`p := s; if h != -1 { p = s[:h] }; p[q+1:]`): each alternative is
+	// judged as the sliced string under the facts of the edge that selects it together with the facts at the slice
+	if xp, isPhi := resolveCell(stripConv(s.X)).(*ssa.Phi); isPhi {
+		alts := phiAlternatives(fn, xp, s)
+		if len(alts) >= 2 && len(alts) <= 4 {
+			for _, a := range alts {
+				if okA, whyA := sliceInBoundsX(fn, unionFacts(fs, a.Facts), s, resolveCell(stripConv(a.V))); !okA {
+					return false, "with the sliced string chosen by a branch, for the alternative " + descDepth(a.V, 2) + ": " + whyA
+				}
+			}
+			return true, "sliced string chosen by a branch: the bounds are found positions in every alternative under the facts of its edge"
+		}
+	}
+	return ok, why
+}
+
+// factsContradict: some `value == constant` comparison is decided one way in a and the other way in b.
+func factsContradict(a, b FactSet) bool {
+	// like normCond, with the compared value followed through local cells and struct copies
+	norm := func(c ssa.Value, pol bool) (string, bool) {
+		for {
+			if u, ok := c.(*ssa.UnOp); ok && u.Op == token.NOT {
+				c, pol = u.X, !pol
+				continue
+			}
+			break
+		}
+		if v, op, k, ok := cmpWithConstInt(c); ok && (op == token.EQL || op == token.NEQ) {
+			if op == token.NEQ {
+				pol = !pol
+			}
+			return fmt.Sprintf("%p==%d", stripConv(resolveCell(stripConv(v))), k), pol
+		}
+		return fmt.Sprintf("%p", c), pol
+	}
+	nb := map[string]bool{}
+	for c, v := range b {
+		k, pol := norm(c, v)
+		nb[k] = pol
+	}
+	for c, v := range a {
+		k, pol := norm(c, v)
+		if w, ok := nb[k]; ok && w != pol {
+			return true
+		}
+	}
+	return false
+}
+
+func sliceInBoundsX(fn *ssa.Function, fs FactSet, s *ssa.Slice, x ssa.Value) (bool, string) {
+	ok, why := sliceBoundsJudge(fn, fs, x, s.Low, s.High)
 	if ok || s.High == nil {
 		return ok, why
 	}
@@ -1332,7 +1387,7 @@ func sliceInBounds(fn *ssa.Function, fs FactSet, s *ssa.Slice) (bool, string) {
 		alts := phiAlternatives(fn, ph, s)
 		if len(alts) >= 2 {
 			for _, a := range alts {
-				if okA, whyA := sliceBoundsJudge(fn, unionFacts(fs, a.Facts), s.X, s.Low, resolveCell(stripConv(a.V))); !okA {
+				if okA, whyA := sliceBoundsJudge(fn, unionFacts(fs, a.Facts), x, s.Low, resolveCell(stripConv(a.V))); !okA {
 					return false, "with the high bound chosen by a branch, for the alternative " + descDepth(a.V, 2) + ": " + whyA
 				}
 			}
@@ -1359,6 +1414,12 @@ func sliceBoundsJudge(fn *ssa.Function, fs FactSet, x, sLow, sHigh ssa.Value) (b
 				if sameVal(subj, x) {
 					return true
 				}
+				// the sliced string is itself a prefix of a string, and the subject is the same prefix
+				if xs, isXS := x.(*ssa.Slice); isXS && xs.Low == nil && xs.High != nil {
+					if ss, isSS := subj.(*ssa.Slice); isSS && ss.Low == nil && ss.High != nil && sameVal(ss.X, xs.X) && sameVal(ss.High, xs.High) {
+						return true
+					}
+				}
 				if sl, isS := subj.(*ssa.Slice); isS && sameVal(sl.X, x) && sl.Low == nil {
 					prefixHigh = sl.High
 					return true
@@ -1372,7 +1433,11 @@ func sliceBoundsJudge(fn *ssa.Function, fs FactSet, x, sLow, sHigh ssa.Value) (b
 			if ph, isPhi := subj.(*ssa.Phi); isPhi {
 				all := true
 				saved := prefixHigh
-				for _, e := range ph.Edges {
+				ffp := FactsOf(fn)
+				for i, e := range ph.Edges {
+					if factsContradict(ffp.OnEdge(ph.Block().Preds[i], ph.Block()), fs) {
+						continue // this subject is selected only on an edge that the facts here exclude
+					}
 					if !okSubj(e) {
 						all = false
 					}
@@ -1421,6 +1486,9 @@ func sliceBoundsJudge(fn *ssa.Function, fs FactSet, x, sLow, sHigh ssa.Value) (b
 		} else if isLenCall := lenOf(x); isLenCall(sHigh) {
 			okHigh = true
 		}
+	}
+	if os.Getenv("VERIF_SLICE_DEBUG") != "" {
+		fmt.Fprintf(os.Stderr, "SLICEDBG x=%s low=%v high=%v okLow=%v okHigh=%v facts=%s\n", descDepth(x, 3), sLow, sHigh, okLow, okHigh, fs.String())
 	}
 	if !okLow || !okHigh {
 		return false, "slice bounds are not derived from strings.Index results known to be != -1 (nor constants/len)"
@@ -1603,7 +1671,47 @@ func c15R5(c *Check, fns []*ssa.Function) {
 			}
 		}
 	}
-	c.Pass(cr("R5"), "scan", "-", fmt.Sprintf("%d functions reachable from Check scanned for panic / log.Fatal / os.Exit / Must*", len(fns)))
+	// comparing two interface values panics when both hold the same uncomparable dynamic type (two JSON arrays or
+	// objects decoded into `any`, as the claims of a token are): `a != b` on two values of an empty interface type is
+	// accepted only when one side is nil or was made from a comparable concrete type
+	nCmp := 0
+	for _, fn := range fns {
+		if !isOwnPath(pkgPathOf(fn)) {
+			continue
+		}
+		for _, b := range fn.Blocks {
+			for _, ins := range b.Instrs {
+				bo, ok := ins.(*ssa.BinOp)
+				if !ok || (bo.Op != token.EQL && bo.Op != token.NEQ) {
+					continue
+				}
+				isAny := func(v ssa.Value) bool {
+					it, isI := v.Type().Underlying().(*types.Interface)
+					return isI && it.NumMethods() == 0
+				}
+				if !isAny(bo.X) || !isAny(bo.Y) {
+					continue
+				}
+				safe := func(v ssa.Value) bool {
+					if isNilConst(v) {
+						return true
+					}
+					for _, l := range Leaves(v, leafOpts{noConcat: true}) {
+						mi, isMI := l.(*ssa.MakeInterface)
+						if isNilConst(l) || (isMI && types.Comparable(mi.X.Type())) {
+							continue
+						}
+						return false
+					}
+					return true
+				}
+				nCmp++
+				c.Obl(safe(bo.X) || safe(bo.Y), cr("R5"), fmt.Sprintf("uncomparable/%s/%d", fnKey(fn), nCmp), P.Pos(bo.Pos()), "interface comparison with a nil or comparable side",
+					"two values of an empty interface type are compared with "+bo.Op.String()+": when both hold a slice or a map (JSON arrays/objects in token claims or decoded documents) the comparison panics at run time")
+			}
+		}
+	}
+	c.Pass(cr("R5"), "scan", "-", fmt.Sprintf("%d functions reachable from Check scanned for panic / log.Fatal / os.Exit / Must* / comparisons of two empty-interface values", len(fns)))
 	_ = n
 }
 
